@@ -87,6 +87,9 @@ class Plan:
         self.nested_every = (40 if q else 12) if prop in ('C03', 'C05') else 0
         self.follow = prop == 'C05'
         self.model_images = prop in ('C02', 'C03', 'C17')
+        self.gap_every = (3 if q else 1) if prop in ('C03', 'C05') else 0
+        self.point_every = 1                     # heavy workloads: only every n-th system call is a crash point
+        self.only_classes = None
 
 
 def explore(exe, journal_path, bits, plan, seed, stats):
@@ -107,7 +110,7 @@ def explore(exe, journal_path, bits, plan, seed, stats):
                 ev = dict(e='begin', b=b)
             elif w[0] == 'ack':
                 ev = dict(e='ack', b=int(w[1]), sync=int(w[2]), rc=int(w[3]))
-                imgs = [sim.img_max(o.idx), sim.img_min(o.idx)]
+                imgs = [sim.img_max(o.idx), sim.img_min(o.idx)] if plan.point_every == 1 else []
             else:
                 ev = dict(e='note', text=o.text)
             events.append((ev, imgs)); continue
@@ -130,7 +133,16 @@ def explore(exe, journal_path, bits, plan, seed, stats):
         else:
             continue
         npoint += 1
+        if plan.point_every > 1 and npoint % plan.point_every != 0 and o.kind not in ('open', 'rename', 'unlink'):
+            events.append((ev, [])); continue
+        if plan.only_classes is not None:
+            for cls in plan.only_classes:
+                imgs.append(getattr(sim, 'img_' + cls)(o.idx))
+            events.append((ev, imgs)); continue
         imgs.append(sim.img_max(o.idx))
+        if plan.gap_every and npoint % plan.gap_every == 0:
+            g = sim.img_gap(o.idx, bump=3 + (npoint // plan.gap_every) % 5)
+            if g is not None: imgs.append(g)
         if plan.all_classes:
             imgs += [sim.img_min(o.idx), sim.img_dirahead(o.idx), sim.img_dataahead(o.idx), sim.img_random(o.idx, rng), sim.img_random(o.idx, rng)]
         elif npoint % plan.stride == 0:
@@ -176,7 +188,7 @@ def explore(exe, journal_path, bits, plan, seed, stats):
 
     def do(job):
         ei, ii, img = job
-        follow = follow_base if (plan.follow and (ei + ii) % 2 == 0) else 0
+        follow = (follow_base + (ei // 2) % 2) if (plan.follow and (ei + ii) % 2 == 0) else 0
         nest = bool(plan.nested_every and img.cls in ('max', 'min') and ei % plan.nested_every == 0 and ii < 2)
         if nest: follow = 0     # the journalled recovery must not contain follow-up writes
         k = key_of(img, follow, nest)
@@ -204,7 +216,7 @@ def explore(exe, journal_path, bits, plan, seed, stats):
     nreal = 0; nnest = 0; classes = {}
     for (ei, ii, img), (res, nres), cached in results:
         if not cached: nreal += 1
-        chain = 'max' if img.cls == 'max' else 'power'
+        chain = 'max' if img.cls in ('max', 'gap') else 'power'
         by_event.setdefault(ei, []).append(norm_result(res, img.cls, chain, img.at, img.detail))
         classes[img.cls] = classes.get(img.cls, 0) + 1
         for x in nres:
@@ -236,6 +248,24 @@ def write_cfg(prop, invs):
     return os.path.basename(path)
 
 
+def heavy_workloads(tier, seed, prop):
+    """Megabytes of data, 1 MiB write buffer, automatic flushes/compactions only: compactions with several outputs in
+    flight while the log is switched (file numbers allocated far ahead of the last MANIFEST record)."""
+    if prop not in ('C05', 'C03', 'C13'):
+        return []
+    n = 1 if tier == 'quick' else 4
+    return [(seed * 1000 + 500 + i, 0x006 | (0x800 if i % 2 else 0), 150 if tier == 'quick' else 240, 0) for i in range(n)]
+
+
+def race_workloads(tier, seed, prop):
+    """Schedules steered with delay points: a compaction is parked after its last output while the writer switches
+    logs, so that obsolete-file removal runs with an immutable memtable pending."""
+    if prop not in ('C02', 'C03', 'C13'):
+        return []
+    n = 1 if tier == 'quick' else 6
+    return [(seed * 1000 + 700 + i, 0x000 | (0x800 if i % 2 else 0), 30 if tier == 'quick' else 60, i % 2) for i in range(n)]
+
+
 def workloads(tier, seed, prop):
     """(seed, optbits, nbatches, endmode). reuse_logs is bit 11; wb sizes bits 1-2; snappy bit 8."""
     base = [(0, 0x000), (1, 0x800), (2, 0x102), (3, 0x904)]
@@ -259,11 +289,18 @@ def run_disk(prop, tier, seed):
     total = dict(workloads=0, ops=0, crash_points=0, images=0, real_recoveries=0, nested_recoveries=0, tv_states=0, tv_transitions=0, batches=0)
     samples = []
     classes = {}
-    for (wseed, bits, nb, endmode) in workloads(tier, seed, prop):
+    allw = [(w, False) for w in workloads(tier, seed, prop)] + [(w, True) for w in heavy_workloads(tier, seed, prop)]
+    allw += [(w, 'race') for w in race_workloads(tier, seed, prop)]
+    for ((wseed, bits, nb, endmode), heavy) in allw:
         if out.full(): break
-        d, j, p = record(exe, wseed, bits, nb, endmode)
+        renv = {'CRASH_HEAVY': '1'} if heavy is True else {'CRASH_RACE': '1'} if heavy == 'race' else None
+        if heavy == 'race': heavy = False
+        plan = Plan(tier, prop)
+        if heavy:
+            plan.point_every = 12 if tier == 'quick' else 5; plan.only_classes = ['max', 'min']; plan.nested_every = 0; plan.model_images = False
+        d, j, p = record(exe, wseed, bits, nb, endmode, env=renv)
         if p.returncode != 0:
-            d2, j2, p2 = record(exe, wseed, bits, nb, endmode)
+            d2, j2, p2 = record(exe, wseed, bits, nb, endmode, env=renv)
             if p2.returncode != 0:
                 rd = c.replay_dir(prop, 'record')
                 json.dump(dict(kind='crash_record', seed=wseed, bits=bits, nb=nb, endmode=endmode, rc=p.returncode, stderr=p.stderr[-1000:]), open(os.path.join(rd, 'replay.json'), 'w'))
@@ -287,7 +324,7 @@ def run_disk(prop, tier, seed):
                                 journal_excerpt=[l for l in lines[1:] if l.get('e') != 'Recovered'][10:22],
                                 recovered_example=rec[len(rec) // 2] if rec else None))
         if not r['accepted']:
-            _report(prop, out, r, lines, tp, j, wseed, bits, nb, endmode, exe, plan, cfg)
+            _report(prop, out, r, lines, tp, j, wseed, bits, nb, endmode, exe, plan, cfg, renv)
         c.rmtree(d); c.rmtree(td)
     rc = out.finish()
     cov = dict(states=total['tv_states'], transitions=total['tv_transitions'], traces_validated_against_impl=total['workloads'],
@@ -301,7 +338,7 @@ def run_disk(prop, tier, seed):
     return rc
 
 
-def _report(prop, out, r, lines, tp, journal, wseed, bits, nb, endmode, exe, plan, cfg):
+def _report(prop, out, r, lines, tp, journal, wseed, bits, nb, endmode, exe, plan, cfg, renv=None):
     pre = r['prefix'] or 0
     # with an invariant violation the offending line is the last consumed one
     idx = pre if r['violated'] is None else pre
@@ -310,7 +347,7 @@ def _report(prop, out, r, lines, tp, journal, wseed, bits, nb, endmode, exe, pla
     if bad and bad.get('e') == 'Recovered':
         shape.update(cls=bad.get('cls'), reuse_logs=(bits >> 11) & 1, has_follow='follow' in bad)
     # reproduce: record again with the same seed and validate again
-    d2, j2, p2 = record(exe, wseed, bits, nb, endmode)
+    d2, j2, p2 = record(exe, wseed, bits, nb, endmode, env=renv)
     rep = False
     if p2.returncode == 0:
         st = {}
